@@ -582,7 +582,7 @@ static int tick_useful (void) {
 }
 static int run_random (long runs, unsigned seed, const char *init, const char *violdir, const char *prop) {
 	long r, viols = 0, steps_total = 0, nontriv = 0;
-	for (r = 0; r < runs && viols < 40; r++) {     /* forty failing runs are enough (a livelock makes every run slow) */
+	for (r = 0; r < runs && viols < 40 && rt_watchdog_hits < 3; r++) {     /* forty failing runs are enough (a livelock makes every run slow) */
 		char *sched = NULL; size_t sl = 0; FILE *sf = open_memstream (&sched, &sl);
 		long guard = 0;
 		int i, maxdl; long starve_from;
